@@ -12,6 +12,7 @@ import (
 	"math"
 	"math/rand"
 	"sort"
+	"strings"
 	"sync"
 	"sync/atomic"
 
@@ -164,6 +165,8 @@ type pSet struct {
 	wsHuge, wsTiny    []float64             // weights of extreme magnitude (1/sigma^2 with sigma in ns / in 1e6)
 	gBig              graph.IntGraph        // 3000 nodes: node ids beyond any small fixed-size scratch structure
 	xsBig             []float64             // 40000 values of mixed magnitude: the order of additions shows in the last bits
+	bgShared          graph.BiGraph         // one BiGraph object for all goroutines; replaced by an untouched one before the concurrent phase
+	xsSorted          []float64             // ascending with ties, first value not 0 (the usual way to hand data to a smoother)
 	objs              map[string]func() string
 }
 
@@ -216,6 +219,8 @@ func mkSet(rng *rand.Rand) *pSet {
 	for i := range p.xsBig {
 		p.xsBig[i] = (rng.Float64() - 0.3) * math.Pow(10, float64(rng.Intn(9)-2))
 	}
+	p.xsSorted = tied(n, 7, 5)
+	sort.Float64s(p.xsSorted)
 	p.gBig = make(graph.IntGraph, 3000)
 	for i := range p.gBig {
 		if i+1 < len(p.gBig) {
@@ -225,6 +230,7 @@ func mkSet(rng *rand.Rand) *pSet {
 			p.gBig[i] = append(p.gBig[i], rng.Intn(len(p.gBig)))
 		}
 	}
+	p.bgShared = graph.MakeBiGraph(p.gBig)
 	p.linRev = scale.Linear{Min: 100, Max: -3.25}
 	p.rev = rng.Perm(5)
 	nn := 4 + rng.Intn(8)
@@ -277,7 +283,8 @@ func mkSet(rng *rand.Rand) *pSet {
 		"pos": func() string { return digestAny(p.pos) }, "ws": func() string { return digestAny(p.ws) },
 		"wsHuge": func() string { return digestAny(p.wsHuge) }, "wsTiny": func() string { return digestAny(p.wsTiny) },
 		"gBig": func() string { return digestAny(graph.Graph(p.gBig)) }, "xsBig": func() string { return digestAny(p.xsBig) },
-		"samp": func() string { return digSample(&p.samp) }, "wsamp": func() string { return digSample(&p.wsamp) },
+		"xsSorted": func() string { return digestAny(p.xsSorted) },
+		"samp":     func() string { return digSample(&p.samp) }, "wsamp": func() string { return digSample(&p.wsamp) },
 		"sortMe": func() string { return digSample(&p.sortMe) }, "swsamp": func() string { return digSample(&p.swsamp) },
 		"linRev": func() string { return fmt.Sprintf("%+v", p.linRev) }, "rev": func() string { return digestAny(p.rev) },
 		"g": func() string { return digestAny(graph.Graph(p.g)) }, "g2": func() string { return digestAny(graph.Graph(p.g2)) },
@@ -427,6 +434,19 @@ func purityEntries() []pEntry {
 		{"fit.PolynomialRegression(tiny weights)", []string{"xs1", "pos", "wsTiny"}, "", false, func(p *pSet) any {
 			r := fit.PolynomialRegression(p.xs1, p.pos, p.wsTiny, 1)
 			return []any{r.Coefficients, r.F(1.5)}
+		}},
+		{"fit.LOESS(sorted xs)", []string{"xsSorted", "pos"}, "", false, func(p *pSet) any {
+			f := fit.LOESS(p.xsSorted, p.pos, 1, 0.8)
+			return []any{f(p.xsSorted[0]), f(p.xsSorted[len(p.xsSorted)/2] + 0.25), f(p.xsSorted[len(p.xsSorted)-1])}
+		}},
+		{"fit.PolynomialRegression(sorted xs)", []string{"xsSorted", "pos"}, "", false, func(p *pSet) any {
+			return fit.PolynomialRegression(p.xsSorted, p.pos, nil, 3).Coefficients
+		}},
+		// one BiGraph object shared by all goroutines (an untouched one is installed just before the concurrent phase, so
+		// that its first use is concurrent); gBig itself is the read-only input
+		{"graphalg.IDom/DomFrontier(shared BiGraph)", []string{"gBig"}, "", false, func(p *pSet) any {
+			id := graphalg.IDom(p.bgShared, 0)
+			return []any{id, graphalg.DomFrontier(p.bgShared, 0, id), p.bgShared.In(1500)}
 		}},
 		{"vec.Sum(40000)", []string{"xsBig"}, "", false, func(p *pSet) any { return vec.Sum(p.xsBig) }},
 		{"Sample.Sum/Mean(40000)", []string{"xsBig"}, "", false, func(p *pSet) any {
@@ -605,11 +625,16 @@ func purityRecord(out io.Writer, args []string) error {
 		}
 		// concurrent phase: read-only entry points on the same shared inputs
 		var ro []*pEntry
+		var sharedFirst *pEntry
 		for k := range entries {
 			if !entries[k].seqOnly {
 				ro = append(ro, &entries[k])
+				if strings.Contains(entries[k].name, "(shared BiGraph)") {
+					sharedFirst = &entries[k]
+				}
 			}
 		}
+		p.bgShared = graph.MakeBiGraph(p.gBig) // untouched: whatever it builds lazily is built under concurrency
 		var wg sync.WaitGroup
 		for g := 1; g <= *gor; g++ {
 			wg.Add(1)
@@ -617,6 +642,10 @@ func purityRecord(out io.Writer, args []string) error {
 			go func(g int) {
 				defer wg.Done()
 				for c := 0; c < *calls; c++ {
+					if c == 0 && sharedFirst != nil {
+						do(g, sharedFirst, false)
+						continue
+					}
 					do(g, ro[gr.Intn(len(ro))], false)
 				}
 			}(g)
